@@ -41,9 +41,6 @@ def run(repo, chk):
 
     # the defaulting pile
     tr = repo.func("transform.transform")
-    chk.ob("R16.1", "transform.transform:globals-pile-defaults-to-ABSENT", facts_of(tr).mentions("DictPile(glb, __builtins__, default=ABSENT)"), tr.where,
-           "the globals lookup used by generated code returns ABSENT for an undefined name (source of the taint)")
-
     from .shared import dictpile_obligations
     dictpile_obligations(repo, chk, "R16.1")
 
